@@ -50,7 +50,10 @@ var Spellings = []Spelling{
 		}
 		return "X'" + m + "'", m
 	}},
-	{"hexnum", "", true, func(k int, r *core.Rand) (string, string) { m := fmt.Sprintf("ab%dc%06x", k%10, r.Intn(1<<24)); return "0x" + m, m }},
+	{"hexnum", "", true, func(k int, r *core.Rand) (string, string) {
+		m := fmt.Sprintf("ab%dc%06x", k%10, r.Intn(1<<24))
+		return "0x" + m, m
+	}},
 	{"bits", "", false, func(k int, r *core.Rand) (string, string) {
 		m := fmt.Sprintf("1011%04b%016b", k%16, r.Intn(1<<16))
 		return "b'" + m + "'", m
@@ -199,8 +202,9 @@ func Instantiate(t Template, dialect string, r *core.Rand, force *Spelling) (stm
 		cands := spellingsFor(dialect, numeric)
 		if force != nil && (!numeric || force.Numeric) && (force.Dialect == "" || dialectOK(force.Dialect, dialect)) {
 			sp = *force
+		} else if force != nil && numeric {
+			sp = cands[0] // plain integer
 		} else {
-			// bias towards the plain spellings so that most statements stay simple
 			sp = core.Pick(r, cands)
 		}
 		lit, m := sp.Render(k, r)
